@@ -54,20 +54,20 @@ PROPS = {
         modules=["Copia.Props.C06"], namespaces=["Copia.C06"], runner="bb", bb_module="bb_bisync",
         assumptions=_BI_ASSUME, trusted_base=_BI_TB,
         level_text="Kernel-checked WHOLE-RUN theorems for the model of `copia bisync`, for every pair of trees and every archive, under NoNameClash: `converges` (the run completes; afterwards A and B hold the same content at every path and the archive written records exactly that tree) "
-                   "and `second_run_noop` (the next run plans nothing, reports no conflict and leaves both trees as they are). For all maps: a converged pair with a matching record plans nothing; swapping the roots mirrors every decision. "
+                   "and `second_run_noop` (the next run plans nothing, reports no conflict and leaves both trees as they are), `conflict_outcome` (a divergent edit ends on both sides as the greater-hash version at the path and the other at the conflict-copy name). For all maps: a converged pair with a matching record plans nothing; swapping the roots mirrors every decision. "
                    "Without NoNameClash the statements are false of model and code (D10, known findings). Conflict outcome = max BLAKE3 at the path and the loser at <path>.conflict-<host>-<12 hex> is part of the model and "
                    "compared with every real run; oracles: convergence, archive = tree, an immediate real second run plans 0 actions, same final trees under scrambled mtimes and swapped roots.",
         level_note="Trusts Lean's kernel, the hand-written model of bidir.rs (validated against the binary on every run), the harness and the sandbox. mtime independence and root-swap of whole runs are oracle-checked on the binary (the model has no mtimes; `swap_plan` covers the decisions).",
         technique="Lean 4 proof (run + archive invariants by induction over the plan) + executable-model correspondence on histories + convergence/idempotence/independence oracles",
     ),
     "C07": dict(
-        modules=["Copia.Props.C07"], namespaces=["Copia.C07"], runner="bb", bb_module="bb_bisync",
+        modules=["Copia.Props.C07", "Copia.Props.C07b"], namespaces=["Copia.C07"], runner="bb", bb_module="bb_bisync",
         assumptions=_BI_ASSUME + ["`Archive::load` = none for every fault kind is checked on the real binary (SAFE banner vs the harness's strict-JSON prediction), not proved (serde_json is not modelled)"],
         trusted_base=_BI_TB,
         level_text="Kernel-checked theorems for ALL tree pairs: with an untrusted archive the plan contains no delete, no non-delete action ever removes a path, hence a whole run (even one that stops on an I/O error) "
-                   "removes no file from either side. Tie: byte-level archive faults (absent, zero-length, every truncation point sampled, garbage, wrong shape, format_version≠1, other pair, only .bak/.tmp) injected into real "
+                   "removes no file from either side; `untrusted_run_keeps_every_version` (corollary of C02's whole-run theorem, under NoNameClash): every content present before is on BOTH sides afterwards. Tie: byte-level archive faults (absent, zero-length, every truncation point sampled, garbage, wrong shape, format_version≠1, other pair, only .bak/.tmp) injected into real "
                    "histories; real outcome compared with the model's no-base run; oracle: nothing deleted and every version still on both sides.",
-        level_note="Trusts Lean's kernel, the model of apply/reconcile, the harness; content survival (as opposed to path survival) is oracle-checked.",
+        level_note="Trusts Lean's kernel, the model of apply/reconcile, the harness; path survival needs no hypothesis, content survival is proved under NoNameClash (D10's boundary) and oracle-checked on the binary.",
         technique="Lean 4 proof (induction over the plan) + fault-injection correspondence on the real archive file",
     ),
     "C04": dict(
